@@ -363,4 +363,5 @@ package callbacks
 //@   assert in-a-write-pipeline: writePipeline == 1 [C05]
 //@ func RegisterDefaultCallbacks
 //@   tags C05 C13
+//@   assumes ghost-state-starts-closed: writePipeline == 0
 //@   ensures last-pipeline-closed: writePipeline == 1 ==> commitRegistered == 1
